@@ -17,6 +17,7 @@ def grid(cfg, maxsize=5, chunk=120):
                 for p in range(size + 1):
                     cases.append((size, spare, f'inss 0 {p} {i}'))
                     cases.append((size, spare, f'emps 0 {p} {i}'))
+                    cases.append((size, spare, f'empa 0 {p} {i}'))
                     for k in (1, 2, 3):
                         if cfg.fl == 'fixed' and size + k > cfg.n:
                             continue
@@ -43,7 +44,7 @@ def grid(cfg, maxsize=5, chunk=120):
     return scripts, len(cases)
 
 def run(ctx):
-    ok = ctx.lean(['AmcVerif.Props.C10'])
+    ok = ctx.lean(['AmcVerif.Props.C10', 'AmcVerif.Props.C10b'])
     cfgs = [V.VecCfg('small', 3, 'U32', 'ntr', pool=1), V.VecCfg('small', 4, 'U8', 'tr', pool=1), V.VecCfg('std', 0, 'U32', 'ntr', alloc=1, pool=1),
             V.VecCfg('std', 0, 'U32', 'tc', pool=1), V.VecCfg('fixed', 8, 'U8', 'ntr', pool=1), V.VecCfg('small', 6, 'U16', 'tc', pool=1)]
     if ctx.tier == 'thorough':
